@@ -152,7 +152,8 @@ def operand_spec(rng, bits: str, kinds=None):
     """Choose a way to hand `bits` to the library; byte-based kinds only when whole bytes."""
     kinds = kinds or OPERAND_KINDS
     k = rng.choice(kinds)
-    if k in ('bytes', 'bytearray', 'memoryview', 'bytes-sub', 'bytearray-sub', 'memoryview-ro', 'BytesIO', 'BytesIO-used', 'BytesIO-written') and (len(bits) % 8 or not bits):
+    if k in ('bytes', 'bytearray', 'memoryview', 'bytes-sub', 'bytearray-sub', 'memoryview-ro', 'BytesIO', 'BytesIO-used', 'BytesIO-written',
+             'memoryview-strided', 'memoryview-reversed') and (len(bits) % 8 or not bits):
         k = 'str'
     return [k, bits]
 
@@ -188,7 +189,8 @@ def str_enum_member(value: str):
     return enum.Enum('StrEnum_', {'MEMBER': value}, type=str).MEMBER
 
 
-SUBCLASS_KINDS = ['str-sub', 'str-enum', 'bytes-sub', 'bytearray-sub', 'list-sub', 'tuple-sub', 'memoryview-ro', 'frozenbitarray']
+SUBCLASS_KINDS = ['str-sub', 'str-enum', 'bytes-sub', 'bytearray-sub', 'list-sub', 'tuple-sub', 'memoryview-ro', 'frozenbitarray',
+                  'memoryview-strided', 'memoryview-reversed']
 
 
 class OperandFailure(Exception):
@@ -211,6 +213,35 @@ def truthy_items(bits: str):
     return [(_TRUTHY if ch == '1' else _FALSY)[i % 10] for i, ch in enumerate(bits)]
 
 
+STR_HISTORY = 0       # set per case by Ctx.run_case (recorded in the case as '_sh'): what happened to a str operand's text before it is used
+
+
+def _str_operand(text: str, bits: str) -> str:
+    """A str operand means its bits whatever was done before with objects made from the same text.  For a share of the cases the
+    text is first used to build a MUTABLE object which is then changed in place (1), and / or it is spelt as several tokens (2, 3)."""
+    if not STR_HISTORY:
+        return text
+    if STR_HISTORY == 4:
+        # white space (line breaks included) is insignificant anywhere in such a string
+        k = max(len(text) // 2, 3)
+        return text[:k] + ('\n', '\r\n', ' \n ', '\t', '\n\n')[len(bits) % 5] + text[k:] if len(text) > 3 else ' ' + text + '\n'
+    if STR_HISTORY >= 2 and len(bits) >= 2:
+        k = len(bits) // 2
+        text = f'0b{bits[:k]}, 0b{bits[k:]}' if STR_HISTORY == 2 else f'0b{bits[:k]},0b{bits[k:k + 1]}, 0b{bits[k + 1:]}' if len(bits) > k + 1 else text
+    try:
+        for cls in (BitArray, BitStream):
+            t = cls(text)
+            t.append('0b1')
+            if len(t) > 1:
+                t.invert()
+            t2 = cls()
+            t2 += text
+            t2.prepend('0b10')
+    except Exception:  # noqa: BLE001 - whatever the library thinks of this text is the judge's business, not this helper's
+        pass
+    return text
+
+
 def build_operand(spec, receiver=None):
     k, bits = spec[0], spec[1] if len(spec) > 1 else ''
     if k == 'self':
@@ -218,9 +249,9 @@ def build_operand(spec, receiver=None):
     if k in CLASSES:
         return mk(CLASSES[k], bits)
     if k == 'str':
-        return ('0b' + bits) if bits else ''
+        return _str_operand(('0b' + bits) if bits else '', bits)
     if k == 'hexstr':
-        return '0x' + format(int(bits, 2), f'0{len(bits) // 4}x')
+        return _str_operand('0x' + format(int(bits, 2), f'0{len(bits) // 4}x'), bits)
     if k in ('bytes', 'bytearray', 'memoryview'):
         raw = int(bits, 2).to_bytes(len(bits) // 8, 'big') if bits else b''
         return {'bytes': bytes, 'bytearray': bytearray, 'memoryview': memoryview}[k](raw)
@@ -237,6 +268,12 @@ def build_operand(spec, receiver=None):
     if k in ('bytes-sub', 'bytearray-sub', 'memoryview-ro'):
         raw = int(bits, 2).to_bytes(len(bits) // 8, 'big') if bits else b''
         return BytesSub(raw) if k == 'bytes-sub' else BytearraySub(raw) if k == 'bytearray-sub' else memoryview(bytearray(raw)).toreadonly()
+    if k in ('memoryview-strided', 'memoryview-reversed'):
+        # views that are not contiguous in memory: every second byte of a longer buffer, a buffer seen backwards
+        raw = int(bits, 2).to_bytes(len(bits) // 8, 'big') if bits else b''
+        if k == 'memoryview-reversed':
+            return memoryview(raw[::-1])[::-1]
+        return memoryview(bytes(b for x in raw for b in (x, 0xa5)))[::2]
     if k == 'list-sub':
         return ListSub(int(c) for c in bits)
     if k == 'tuple-sub':
